@@ -97,4 +97,24 @@ theorem C09_resolve_missing (env : Env) (heap : List (Nat × List Nat)) (nm : St
     resolveSlots env heap [nm] = (heap, [(nm, none)]) := by
   simp [resolveSlots, hv]
 
+/-- **C09 (a macro of another template runs in its own template)**: inside the callee's activation `macros` and `template`
+are those of the template the macro was written in — whatever template is being rendered — because name resolution reads
+the template id of the innermost frame, which `macroEnter tid` sets -/
+theorem C09_macro_names_resolve_in_its_template (cfg : ECfg) (al : List (Str × Val)) (tid : Nat) (body : Node) (s : RState) (est : ESt)
+    (hfree : lookupAssoc al (lit "macros") = none)
+    (hvar : lookupAssoc ((macroEnter tid body s).env.own ++ (macroEnter tid body s).env.root) (lit "macros") = none) :
+    resolveName (mkECtx cfg al (macroEnter tid body s).env) (lit "macros") est = (.ok (.macros tid), est) := by
+  have htid : (mkECtx cfg al (macroEnter tid body s).env).tid = tid := by
+    simp [mkECtx, macroEnter]
+  unfold resolveName
+  have h1 : startsWith (lit "macros") (lit "__") = false := by decide
+  have h2 : internals.contains (lit "macros").toString = false := by decide
+  simp only [h1, h2, Bool.false_eq_true, Bool.or_self, if_false]
+  have ha : lookupAssoc (mkECtx cfg al (macroEnter tid body s).env).aliases (lit "macros") = none := by simpa [mkECtx] using hfree
+  have hv : lookupAssoc (mkECtx cfg al (macroEnter tid body s).env).vars (lit "macros") = none := by simpa [mkECtx] using hvar
+  simp only [ha, hv]
+  have h3 : ((lit "macros").toString == "nothing") = false := by decide
+  have h4 : ((lit "macros").toString == "macros") = true := by decide
+  simp [h3, h4, htid, pure]
+
 end ChamVerif
